@@ -368,7 +368,18 @@ def r14_6(prog, out):
             continue
         bi = prog.info(b.id)
         # spawns whose task type mentions the dispatch coroutine
-        sps = [s for s in bi.spawns if any(d in (s.task_ty or "") for d in ds)]
+        def drives(sp):
+            if any(d in (sp.task_ty or "") for d in ds):
+                return True
+            # a wrapper task around the (shared) dispatch future: it awaits the dispatch on every path to its end
+            if sp.task is None:
+                return False
+            ti = prog.info(sp.task)
+            if ti is None:
+                return False
+            aw = [a for a in ti.awaits if any(d in (a.fut_ty or "") for d in ds) and a.select is None]
+            return bool(aw) and ti.cfg.escapes(0, {a.poll_bb for a in aw}, after=False) is None
+        sps = [s for s in bi.spawns if drives(s)]
         for sp in sps:
             found += 1
             key = "dispatch-driven:%s" % prog.short(b.id)
